@@ -54,6 +54,17 @@ def run(chk):
     vb = repo.mod("pipe.verbs")
     join = vb.func("join")
 
+    # ---- R6v first: the refusals and the naming of the right columns decided on the interpreted verb (verbsim); the shape of the
+    # suffix search (R1s) is only read when that is not possible
+    from ..interp import SymbolicBranch as _SBj6
+
+    try:
+        join_decided = bool(_join_scenarios(chk, model_of(chk)))
+    except (AnalysisError, _SBj6) as e:
+        chk.undecided.append(f"R6v: join could not be interpreted ({str(e)[:140]})")
+        join_decided = False
+    _ob1s = chk.ob if not join_decided else (lambda *a, **k: None)
+
     # ---- R1
     n = determinism.run_rule(chk, "R1", scope=("pipe.verbs",), only_funcs={"join", "join._preprocess_on"})
     chk.floor("R1", "set iteration sites in join", n, 2)
@@ -63,15 +74,15 @@ def run(chk):
     for w in loops:
         t = norm(w.test)
         good = good or ("for name in right_names" in t and "any(" in t and "suffix" in t and any(isinstance(s, ast.AugAssign) and norm(s.target) == "cnt" for s in w.body))
-    chk.ob("R1s", vb, join, "suffix counter increases while any suffixed right name is a left name", good,
+    _ob1s("R1s", vb, join, "suffix counter increases while any suffixed right name is a left name", good,
            "the numeric suffix search does not re-check every right name against the left names for the final counter: "
            "a right column can end up with the name of a left column")  # fmt: skip
     # the suffix actually used for renaming includes the counter
-    chk.ob("R1s", vb, join, "final suffix includes the counter", any(isinstance(s, ast.AugAssign) and norm(s.target) == "suffix" and "cnt" in norm(s.value) for s in ast.walk(join)),
+    _ob1s("R1s", vb, join, "final suffix includes the counter", any(isinstance(s, ast.AugAssign) and norm(s.target) == "suffix" and "cnt" in norm(s.value) for s in ast.walk(join)),
            "the counter found by the collision search is not appended to the suffix")  # fmt: skip
     ren = [c for c in calls_in(join) if dotted(c.func) == "rename"]
     ok = len(ren) == 3 and all("col.name + " in norm(c) for c in ren) and sum("user_suffix" in norm(c) for c in ren) == 1
-    chk.ob("R1s", vb, join, "right columns are renamed to name + suffix (3 rename sites: user suffix, clashing only, all)", ok,
+    _ob1s("R1s", vb, join, "right columns are renamed to name + suffix (3 rename sites: user suffix, clashing only, all)", ok,
            "the right table is not renamed with `name + suffix` in all three suffix cases")  # fmt: skip
 
     # ---- R2
@@ -234,7 +245,6 @@ def run(chk):
         chk.ob("R5", cache, sib.cfgs["cache"].func, "cache Join: derived_from = left | right", both_inputs,
                "the join result is not derived from both inputs: references to the right table's columns would be rejected / self-joins not detected")  # fmt: skip
 
-    _join_scenarios(chk, model_of(chk))
 
     # ---- R6
     instances = [
@@ -248,6 +258,8 @@ def run(chk):
         ("full join with a non-equality predicate -> ValueError", "ValueError", ["full", "equal"]),
     ]
     raises = [r for r in ast.walk(join) if isinstance(r, ast.Raise) and r.exc is not None]
+    if join_decided:  # (the first five refusals are decided by R6v on the interpreted verb)
+        instances = instances[5:]
     for label, exc, needles in instances:
         hit = False
         for r in raises:
@@ -266,11 +278,22 @@ def run(chk):
     # ambiguity / unknown column in on
     pre = next((n for n in ast.walk(join) if isinstance(n, ast.FunctionDef) and n.name == "_preprocess_on"), None)
     if pre is None:
+        # the ingress may have been moved to module level: the function handed to map_subtree over `on` that raises ValueError
+        from ..source import reachable_functions as _rf6j
+
+        pre = next((g_ for g_ in _rf6j(vb, join) if g_ is not join and sum(1 for r_ in ast.walk(g_) if isinstance(r_, ast.Raise) and "ValueError" in norm(r_)) >= 2
+                    and any(isinstance(t_, ast.Call) and "ColName" in norm(t_) for t_ in ast.walk(g_))), None)
+    if pre is None:
         raise AnalysisError("C06/R6: _preprocess_on not found")
     pr = [norm(r.exc) for r in ast.walk(pre) if isinstance(r, ast.Raise) and r.exc is not None]
     chk.ob("R6", vb, pre, "on: ambiguous C.name, unknown C.name, foreign column -> ValueError", sum(x.startswith("ValueError") for x in pr) >= 3,
            "column resolution inside `on` no longer rejects ambiguous / unknown names and foreign columns with ValueError")  # fmt: skip
-    chk.ob("R6", vb, join, "every on-predicate passes through _preprocess_on", "pred.map_subtree(_preprocess_on) for pred in on" in norm(join),
+    through_ingress = any(
+        isinstance(c_, ast.Call) and isinstance(c_.func, ast.Attribute) and c_.func.attr in ("map_subtree", "map_col_roots") and c_.args
+        and any(isinstance(x_, ast.Name) and x_.id == pre.name for x_ in ast.walk(c_.args[0]))
+        for c_ in ast.walk(join)
+    )
+    chk.ob("R6", vb, join, "every on-predicate passes through the ingress function", through_ingress or "pred.map_subtree(_preprocess_on) for pred in on" in norm(join),
            "join conditions are not resolved against both tables")  # fmt: skip
 
     # ---- R8 physical-name collisions in the Polars join
@@ -361,7 +384,7 @@ def run(chk):
                "left and right key lists are swapped in the Polars join call")  # fmt: skip
 
 
-def _join_scenarios(chk, m):
+def _join_scenarios(chk, m, rule="R6v"):
     """R6v: `join` interpreted (verbsim) with an empty `on` list: the refusals that depend on table metadata, and the
     naming of the right columns.  Every scenario runs with ascending and descending set iteration order."""
     from ..catalogue import DT, _ModuleNS
@@ -435,7 +458,7 @@ def _join_scenarios(chk, m):
                     on_arg.append(pred)
                 w.env["types"] = _ModuleNS({"without_const": Native(lambda d: d, "without_const")})
                 w.env["Bool"] = Native(lambda: DT("Bool"), "Bool")
-                w.env["functools"] = _ModuleNS({"reduce": Native(lambda fn_, seq, *first: first[0] if first else next(iter(seq), None), "reduce")})
+                w.env["functools"] = _ModuleNS({"reduce": Native(lambda fn_, seq, *first: first[0] if first else next(iter(seq), None), "reduce"), "partial": __import__("functools").partial})
                 w.env["operator"] = _ModuleNS({"and_": None})
                 w.env["Ftype"] = _ModuleNS({"ELEMENT_WISE": "EW"})
             got = w.run(f, [left, right, list(on_arg), "inner"], {"suffix": kw.get("suffix")})
@@ -472,6 +495,7 @@ def _join_scenarios(chk, m):
                     ok, detail = not problems, "; ".join(problems) or f"right names {rn_}"
                 except PyRaise as p_:
                     ok, detail = False, f"raises {p_.name}: {p_.msg}"
-            chk.ob("R6v", vb, f, f"join [{order}]: {label}", ok,
+            chk.ob(rule, vb, f, f"join [{order}]: {label}", ok,
                    f"join, scenario `{label}` (set iteration order {order}): {detail}")  # fmt: skip
-    chk.floor("R6v", "join scenarios x iteration orders", n, 20)
+    chk.floor(rule, "join scenarios x iteration orders", n, 20)
+    return True
